@@ -48,6 +48,7 @@ class FnSpec:
         self.n16 = kw.pop('n16', False)
         self.safety_props = kw.pop('safety_props', None)
         self.group = kw.pop('group', None)
+        self.guard = kw.pop('guard', None)               # contract for the body of a nested Drop guard (N14): dict(requires=[E], ensures=[E])
         self.optional = kw.pop('optional', False)     # item may be absent (e.g. an override of a trait default); then nothing to check             # emit inside the named group block (see Unit.groups)
         if kw:
             raise TypeError('unknown FnSpec args %s' % list(kw))
@@ -245,7 +246,7 @@ def generate(unit, repo, vacuity=False, falsify=False):
             if spec.n16:
                 text, r = A.n16_add_assign(text); norms += r
             text, r = A.regex_rules(text, DEFAULT_RULES + unit.global_rules + spec.rules); norms += r
-            text, hoisted, r = A.n14_hoist(text); norms += r
+            text, hoisted, r = A.n14_hoist(text, guard=(dict(requires=[('guard.req.' + c.label, c.expr) for c in spec.guard.get('requires', [])], ensures=[('guard.ens.' + c.label, c.expr) for c in spec.guard.get('ensures', [])]) if spec.guard else None)); norms += r
             try:
                 if spec.ret:
                     text = A.set_return_name(text, spec.ret)
@@ -295,6 +296,9 @@ def generate(unit, repo, vacuity=False, falsify=False):
             for n, c in spec.closures.items():
                 for (l, e) in c.get('ensures', []):
                     g.obligations['%s::%s::%s.ens.%s' % (unit.name, key, cname(n), l)] = dict(props=fprops, fn=key, kind='closure postcondition', expr=e)
+            if spec.guard:
+                for c in spec.guard.get('ensures', []):
+                    g.obligations['%s::%s::guard.ens.%s' % (unit.name, key, c.label)] = dict(props=c.props or fprops, fn=key, kind='postcondition of the unwinding guard body', expr=c.expr)
             for c in spec.hint_obligations:
                 g.obligations['%s::%s::hint.%s' % (unit.name, key, c.label)] = dict(props=c.props or fprops, fn=key, kind='assertion in proof hint', expr=c.expr)
             g.obligations['%s::%s::safety' % (unit.name, key)] = dict(
